@@ -80,6 +80,24 @@ def make_base(seed):
         sc["rows"] = [west, east] + rest
         sc["mask"] = np.ones_like(np.array(sc["mask"])).tolist()
         sc["_rest"] = True
+    if seed % 5 == 4:
+        # dense layout (the dead stay in the arrays), a land block in an eastward flow of one cell per step: the first particle
+        # leaves the grid at once, others run aground one and two steps later, one drifts in open water
+        sc = scen.gen(seed, rev=False, continuous=False, kills=False, nsteps=6, period=1, numrec=0, speed=1.0, subgrid="none", layout="dense",
+                      land=False, scheme="EF", vertadv=False)
+        imax, jmax = sc["imax"], sc["jmax"]
+        sc["U"] = np.full_like(np.array(sc["U"]), 2.0).tolist(); sc["V"] = np.zeros_like(np.array(sc["V"])).tolist()
+        mask = np.ones((jmax, imax)); ib = imax // 2 + 1
+        mask[3:jmax - 3, ib:ib + 2] = 0
+        sc["mask"] = mask.tolist()
+        sc["dx"] = np.full((jmax, imax), 128.0).tolist()
+        r0 = dict(sc["rows"][0])
+        sc["rows"] = [dict(r0, step=0, mult=1, X=float(imax - 2.25), Y=1.25, Z=1.0, key=0),        # A: out of the grid in step 0
+                      dict(r0, step=0, mult=1, X=float(ib - 1.25), Y=4.0, Z=1.0, key=1),           # B: aground in step 0
+                      dict(r0, step=0, mult=1, X=2.0, Y=1.5, Z=1.0, key=2),                        # C: open water
+                      dict(r0, step=0, mult=1, X=float(ib - 2.25), Y=5.25, Z=1.0, key=3)]          # D: aground in step 1
+        sc["kill"] = {}
+        sc["_ground"] = True
     return sc
 
 
@@ -89,6 +107,8 @@ def variant(sc, kind, r):
     killed_keys = {st: [pm[p] for p in pids if p < len(pm)] for st, pids in sc["kill"].items()}
     if kind == "drop" and sc.get("_rest"):
         v["rows"] = v["rows"][:1]          # the particle in the resting water, alone
+    elif kind == "drop_leaver":
+        v["rows"] = v["rows"][1:]
     elif kind == "drop":
         keep = [row for row in v["rows"] if row["step"] == 0 and row["key"] == v["rows"][0]["key"] or r.rand() < 0.6]
         v["rows"] = keep or v["rows"][:1]
@@ -189,7 +209,7 @@ def run(ctx: Ctx):
     for b in range(nbase):
         base = make_base(ctx.seed * 100000 + 7000 + b)
         jobs.append(base); meta.append((b, "base"))
-        for kind in (kinds if ctx.thorough else (["drop", "permute", "repeat"] if base.get("_rest") else [kinds[(b + i) % len(kinds)] for i in range(3)])):
+        for kind in (["drop_leaver", "permute", "repeat"] if base.get("_ground") else kinds if ctx.thorough else (["drop", "permute", "repeat"] if base.get("_rest") else [kinds[(b + i) % len(kinds)] for i in range(3)])):
             jobs.append(variant(base, kind, r)); meta.append((b, kind))
     res = pmap(run_one, jobs)
     bases = {}
